@@ -37,7 +37,7 @@ func init() {
 	Register(&Rule{
 		ID:    "R-CANADDR",
 		Doc:   "every call that passes a canAddr argument in json's type compiler passes what reflect's addressability rules give: true for slice elements and pointees, false for map keys and values, the caller's own canAddr for array elements, struct fields and ',string' wrappers, true or the caller's for the fields of an embedded struct pointer, kind==Ptr at the top level; the memo of compiled struct types is keyed by (type, canAddr); pointer-receiver marshalers are installed only under canAddr",
-		Props: []string{"C01"},
+		Props: []string{"C01", "C09"},
 		Min:   map[string]int{"C01": 12},
 		Run:   runCanAddr,
 	})
@@ -777,7 +777,7 @@ var canAddrTable = map[string]string{
 
 func runCanAddr(c *core.Ctx) []core.Obligation {
 	b := newOb(c, "R-CANADDR")
-	props := []string{"C01"}
+	props := []string{"C01", "C09"} // a codec cached under the wrong addressability makes the result depend on which call came first
 	canAddrParam := func(fn *ssa.Function) (int, *ssa.Parameter) {
 		for i, p := range fn.Params {
 			if p.Name() == "canAddr" {
